@@ -92,7 +92,7 @@ RawDraws == IF Profile = "c12"
 \*  the programs of Mode "solidoff" exercise exactly that, in a child process)
 Fix(d0) == LET d == IF d0.dash = 0 THEN [d0 EXCEPT !.off = 0] ELSE d0 IN
            IF d.fill = "none" /\ d.stroke = "none" THEN [d EXCEPT !.fill = "black"] ELSE d
-SolidOff == [shape: {1, 4}, view: {1, 3}, cs: {0}, fill: {"none", "red"}, stroke: {"blue"}, width: {1, 2}, cap: {0}, join: {0, 4}, dash: {0}, off: {-1, 1}, rule: {0}, img: {0}]
+SolidOff == [shape: {1}, view: {1, 3}, cs: {0}, fill: {"none", "red"}, stroke: {"blue"}, width: {2}, cap: {0}, join: {0, 4}, dash: {0}, off: {-1, 1}, rule: {0}, img: {0}]
 SubStyles == { Fix(d) : d \in [shape: {1}, view: {1}, cs: {0}, fill: {"none","red","redh"}, stroke: {"none","blue","blueh"},
                                width: {1}, cap: {0}, join: {0,3}, dash: {0,1}, off: {0}, rule: {0,1}, img: {0}] }
 SubStylesBig == { Fix(d) : d \in [shape: {1,4}, view: {1,3}, cs: {0}, fill: {"none","red","redh","dred"}, stroke: {"none","blue","blueh"},
@@ -104,7 +104,8 @@ DrawM(d) == MMul(CSV(d.cs), Views[d.view])
 Lin(m) == <<m[1], m[2], m[4], m[5]>>
 SimL(q) == q[1]*q[1] + q[2]*q[2] = q[3]*q[3] + q[4]*q[4] /\ q[1]*q[3] + q[2]*q[4] = 0
 DetL(q) == q[1]*q[4] - q[2]*q[3]
-ScaleL(q) == ISqrtLo(Abs(DetL(q)))                      \* exact when SimL(q) and the scale is an integer
+\* integer square root of |det| (exact when SimL(q) and the scale is an integer); small determinants without bisection
+ScaleL(q) == LET d == Abs(DetL(q)) IN IF d <= 400 THEN CHOOSE s \in 0..20 : s*s <= d /\ (s+1)*(s+1) > d ELSE ISqrtLo(d)
 IntSim(q) == SimL(q) /\ ScaleL(q) * ScaleL(q) = Abs(DetL(q)) /\ DetL(q) # 0
 \* the pen of a stroke: a circle of diameter w in user space seen through the linear map q; w^2 * q q^T (symmetric 2x2)
 PenForm(w, q) == << w*w*(q[1]*q[1] + q[2]*q[2]), w*w*(q[1]*q[3] + q[2]*q[4]), w*w*(q[3]*q[3] + q[4]*q[4]) >>
@@ -215,12 +216,12 @@ AddCurve(p) == [p EXCEPT !.og = TRUE]
 \* ---- performed paints --------------------------------------------------------------------------
 FillP(p, rule, col, a, ev) == [kind |-> "fill", subs |-> p.subs, og |-> p.og, rule |-> rule, col |-> col, a |-> a,
                                w |-> 0, lin |-> <<1,0,0,1>>, cap |-> 0, jk |-> "", ml |-> 0, dash |-> <<>>, ph |-> 0, ko |-> FALSE,
-                               o |-> IF rule = 1 THEN ev.oe ELSE ev.o, F |-> MId]
+                               o |-> IF rule = 1 THEN ev.oe ELSE ev.o, onz |-> ev.o, ou |-> IF rule = 1 THEN ev.oue ELSE ev.ou, ounz |-> ev.ou, F |-> MId]
 StrokeP(p, g, jk, ko) == [kind |-> "stroke", subs |-> p.subs, og |-> p.og, rule |-> 0, col |-> g.sc, a |-> g.sa,
                           w |-> g.w, lin |-> Lin(g.ctm), cap |-> g.cap, jk |-> jk, ml |-> g.ml, dash |-> g.dash, ph |-> g.ph, ko |-> ko,
-                          o |-> <<>>, F |-> MId]
+                          o |-> <<>>, onz |-> <<>>, ou |-> <<>>, ounz |-> <<>>, F |-> MId]
 ImageP(F, a) == [kind |-> "image", subs |-> <<>>, og |-> FALSE, rule |-> 0, col |-> <<0,0,0>>, a |-> a, w |-> 0, lin |-> <<1,0,0,1>>,
-                 cap |-> 0, jk |-> "", ml |-> 0, dash |-> <<>>, ph |-> 0, ko |-> FALSE, o |-> <<>>, F |-> F]
+                 cap |-> 0, jk |-> "", ml |-> 0, dash |-> <<>>, ph |-> 0, ko |-> FALSE, o |-> <<>>, onz |-> <<>>, ou |-> <<>>, ounz |-> <<>>, F |-> F]
 
 \* ---- comparison of a performed paint with a requested paint ------------------------------------------
 RECURSIVE Dedup(_)
@@ -282,19 +283,22 @@ PrevInSlot(i, s) == IF i = 0 THEN 0 ELSE IF Slot(queue[i]) = s THEN i ELSE PrevI
 PaintAt(j) == IF j = 0 THEN <<<<0,0,0>>, 255>> ELSE <<queue[j].col, queue[j].a>>
 RECURSIVE RealAlphaAfter(_)
 RealAlphaAfter(j) == IF j = 0 THEN 255 ELSE IF queue[j].kind = "image" THEN RealAlphaAfter(j - 1) ELSE queue[j].a
+RECURSIVE PrevNonImage(_)
+PrevNonImage(j) == IF j = 0 THEN 0 ELSE IF queue[j].kind # "image" THEN j ELSE PrevNonImage(j - 1)
 Premul(e) == [i \in 1..3 |-> (e.col[i] * e.a + 127) \div 255]
 Feats(i) ==
   IF i < 1 \/ i > Len(queue) THEN [none |-> TRUE]
   ELSE LET e == queue[i] pj == PrevInSlot(i - 1, Slot(e)) d == prog[e.draw] IN
   [ SameColourDifferentAlpha |-> e.kind # "image" /\ PaintAt(pj) = <<e.col, e.a>> /\ \E j \in (pj + 1)..(i - 1) : queue[j].a # e.a,
-    ImageBetweenDraws |-> i > 1 /\ queue[i-1].kind = "image" /\ e.a = 255 /\ RealAlphaAfter(i - 1) # 255,
+    ImageBetweenDraws |-> e.a = 255 /\ RealAlphaAfter(i - 1) # 255 /\ \E j \in 1..(i - 1) : queue[j].kind = "image",
     StaleAlpha |-> RealAlphaAfter(i - 1),
     StrokeOnlyEvenOdd |-> ~HasFill(d) /\ d.rule = 1,
     StrokeEvenOdd |-> HasStroke(d) /\ d.rule = 1,
     NonSimilarityView |-> ~e.sim,
     UnsupportedJoin |-> e.jk \in {"miterclip", "arcs"},
     DashedWidthNotOne |-> e.dashed /\ d.width # 1,
-    PremultipliedBytesEqual |-> i > 1 /\ queue[i-1].kind # "image" /\ queue[i-1].col # e.col /\ Premul(queue[i-1]) = e.col,
+    PremultipliedBytesEqual |-> LET pj2 == PrevNonImage(i - 1) IN pj2 > 0 /\ queue[pj2].col # e.col /\ Premul(queue[pj2]) = e.col,
+    PrevColour |-> LET pj2 == PrevNonImage(i - 1) IN IF pj2 > 0 THEN queue[pj2].col ELSE <<0,0,0>>,
     FillStrokeTranslucentSameAlpha |-> HasFill(d) /\ HasStroke(d) /\ PaintTab[d.fill].a = PaintTab[d.stroke].a /\ PaintTab[d.fill].a # 255,
     kind |-> e.kind, draw |-> e.draw ]
 
@@ -499,7 +503,9 @@ SvgPath_(d, i, cur, p) ==
             THEN LET pt == SvgPt(cmd, cur) IN SvgPath_(d, i + 1, pt, IF cmd.c \in {"M", "m"} THEN AddMove(p, pt) ELSE AddLine(p, pt))
             ELSE SvgPath_(d, i + 1, cur, AddCurve(IF cmd.c \in {"M","m"} THEN AddMove(p, cur) ELSE p))
        ELSE SvgPath_(d, i + 1, cur, AddCurve(p))
-SvgPath(d) == SvgPath_(d, 1, <<0,0>>, Path0)
+SvgLineCmds == {"M","m","L","l","H","h","V","v","Z","z"}
+SvgPath(d) == IF \E i \in 1..Len(d) : d[i].g = 0 \/ d[i].c \notin SvgLineCmds THEN [subs |-> <<>>, og |-> TRUE]   \* curved / off the lattice: only its region is compared
+              ELSE SvgPath_(d, 1, <<0,0>>, Path0)
 \* transform list; rotate only by multiples of 90 degrees, otherwise the numerically composed matrix of the lexer is used
 TfArgsOK(t) == CASE t.f = "matrix" -> Len(t.a) = 6
                  [] t.f = "translate" -> Len(t.a) \in {1, 2}
@@ -557,7 +563,7 @@ SvgNop(ev) == /\ be = "svg" /\ ev.op \in {"defs", "style", "/svg"} /\ painted' =
 \* ---------------------------------------------------------------------------------------------
 \* anything else is not part of the language: rejected
 \* ---------------------------------------------------------------------------------------------
-KnownOps(lang) == {"BEGIN", "Request", "END"} \cup
+KnownOps(lang) == {"BEGIN", "Request", "END", "EOF"} \cup
   CASE lang = "pdf" -> PdfStateOps \cup PdfPathOps \cup PdfPaintOps \cup {"q", "Q", "cm", "W", "W*", "Do"}
     [] lang = "ps"  -> PsStateOps \cup PsPathOps \cup PsPaintOps \cup PsCtmOps \cup {"gsave", "grestore", "def", "image", "%%BoundingBox", "showpage", "%%EOF"} \cup Range(ext)
     [] lang = "svg" -> {"svg", "path", "image", "defs", "style", "/svg"}
@@ -571,7 +577,7 @@ Unknown(ev) == /\ ev.op \notin KnownOps(be) /\ bad' = "unknown-operator:" \o ev.
 \* ---------------------------------------------------------------------------------------------
 RECURSIVE Cat(_)
 Cat(ss) == IF ss = <<>> THEN <<>> ELSE Head(ss) \o Cat(Tail(ss))
-E(op, a) == [op |-> op, a |-> a, g |-> 1, s |-> "", o |-> <<>>, oe |-> <<>>, ph |-> 0, u |-> 0]
+E(op, a) == [op |-> op, a |-> a, g |-> 1, s |-> "", o |-> <<>>, oe |-> <<>>, ou |-> <<>>, oue |-> <<>>, ph |-> 0, u |-> 0]
 EBegin(lang, id, x) == [op |-> "BEGIN", be |-> lang, id |-> id, W |-> CW, H |-> CH, ext |-> x]
 RefExt == << [n |-> "A255", CA |-> 255, ca |-> 255], [n |-> "A128", CA |-> 128, ca |-> 128] >>
 GsName(a) == IF a = 255 THEN "A255" ELSE "A128"
@@ -600,7 +606,7 @@ RefPsPaint(e, d) ==
           \o RefPathPdf(Shapes[d.shape], "moveto", "lineto", "closepath") \o <<E("stroke", <<>>), E("grestore", <<>>)>>
     [] OTHER -> <<E("setrgbcolor", e.col), E("ellipse", <<>>), [E("fill", <<>>) EXCEPT !.o = <<e.draw>>]>>
 P(n, t, v, s) == [n |-> n, src |-> "style", t |-> t, v |-> v, s |-> s, g |-> 1]
-SvgEl(pr, d, tf, o) == [op |-> "path", pr |-> pr, d |-> d, tf |-> tf, tm |-> <<1,0,0,1,0,0>>, tmg |-> 0, o |-> o, oe |-> o, a |-> <<>>, g |-> 1, s |-> ""]
+SvgEl(pr, d, tf, o) == [op |-> "path", pr |-> pr, d |-> d, tf |-> tf, tm |-> <<1,0,0,1,0,0>>, tmg |-> 0, o |-> o, oe |-> o, ou |-> <<>>, oue |-> <<>>, a |-> <<>>, g |-> 1, s |-> ""]
 SvgD(sh) == Cat([j \in 1..Len(sh) |-> [i \in 1..Len(sh[j].p) |-> [c |-> IF i = 1 THEN "M" ELSE "L", a |-> sh[j].p[i], g |-> 1]]
                                     \o (IF sh[j].c THEN <<[c |-> "z", a |-> <<>>, g |-> 1]>> ELSE <<>>)])
 \* transform="matrix(..)" expressing the draw matrix in SVG coordinates: Flip . T = M . Flip'  where local y is flipped about 0
